@@ -444,7 +444,8 @@ def _always_exits(stmts: List[ast.stmt]) -> bool:
 def guards(fn: ast.AST, node: ast.AST, pm: Optional[Dict] = None) -> List[Tuple[ast.AST, bool]]:
     """Conditions under which `node` executes inside fn: enclosing if/while tests with
     the branch direction, plus earlier sibling early exits (`if c: raise` => (c, False))
-    and asserts (=> (test, True)).  Syntax-directed dominance; no goto in Python."""
+    and asserts (=> (test, True)).  Syntax-directed dominance; no goto in Python.
+    Tests are reported in positive form (see `positive`)."""
     pm = pm or parent_map(fn)
     out: List[Tuple[ast.AST, bool]] = []
     cur = node
@@ -470,7 +471,8 @@ def guards(fn: ast.AST, node: ast.AST, pm: Optional[Dict] = None) -> List[Tuple[
         if isinstance(par, ast.ExceptHandler):
             pass
         cur = par
-    return out
+    # canonical polarity: (not x, T) is reported as (x, F), (a != b, T) as (a == b, F) - rules never depend on how a test is spelled
+    return [positive(t, tr) for t, tr in out]
 
 
 def enclosing(fn: ast.AST, node: ast.AST, kinds, pm: Optional[Dict] = None) -> List[ast.AST]:
@@ -522,3 +524,27 @@ def truth_table_implies(test: ast.AST, truth: bool, required_atoms: List[str]) -
         if ev(test, env) == truth and not all(env[r] for r in required_atoms):
             return False
     return True
+
+
+_POS = {ast.NotEq: ast.Eq, ast.IsNot: ast.Is, ast.NotIn: ast.In}
+
+
+def positive(t: ast.AST, truth: bool = True) -> Tuple[ast.AST, bool]:
+    """(test, truth) with every outer negation folded into the truth value: (not x, T) -> (x, F); (a != b, T) -> (a == b, F)."""
+    while True:
+        if isinstance(t, ast.UnaryOp) and isinstance(t.op, ast.Not):
+            t, truth = t.operand, not truth
+        elif isinstance(t, ast.Compare) and len(t.ops) == 1 and type(t.ops[0]) in _POS:
+            t = ast.copy_location(ast.Compare(left=t.left, ops=[_POS[type(t.ops[0])]()], comparators=t.comparators), t)
+            truth = not truth
+        else:
+            return t, truth
+
+
+def pguards(fn: ast.AST, node: ast.AST, pm: Optional[Dict] = None) -> List[Tuple[str, bool]]:
+    """guards() as (source of the positive test, truth) pairs - independent of how a test is spelled (not / != / guard clause)."""
+    out = []
+    for t, tr in guards(fn, node, pm):
+        p, v = positive(t, tr)
+        out.append((ast.unparse(p), v))
+    return out
